@@ -266,6 +266,3 @@ pub fn btree_into_vec<K, V>(m: BTreeMap<K, V>) -> (r: Vec<(K, V)>)
             forall|i: int, j: int| 0 <= i < j < r@.len() ==> (#[trigger] r@[i]).0 != (#[trigger] r@[j]).0
 { unimplemented!() }
 pub assume_specification<T: Clone> [<[T]>::to_vec] (s: &[T]) -> (r: Vec<T>) ensures r@ == s@;
-// neighbouring std methods a refactor may reach for (lesson 3): ASSUMED contracts = the std documentation
-pub assume_specification [u128::abs_diff] (a: u128, b: u128) -> (r: u128) ensures r == (if a >= b { a - b } else { b - a });
-pub assume_specification [u64::abs_diff] (a: u64, b: u64) -> (r: u64) ensures r == (if a >= b { a - b } else { b - a });
